@@ -33,7 +33,14 @@ EXPLANATION = (
     "reported under R14c with the key prefix 'implicit targets' (F28)). R14d: exponents (lowered one by one, recursion until none is left, exponents < 1 refused; derivative "
     "e x^(e-1) with the base re-inserted). R14e: several occurrences (sorted block-key tuples, product rule), several "
     "terms (accumulation per key), terms without the tensor under ('none',), spin block keys, input guards, "
-    "assumptions preserved, the input expression unchanged, no mutable Expr shared between keys. R14f: call history: "
+    "assumptions preserved, the input expression unchanged, no mutable Expr shared between keys. "
+    "Several occurrences are removed in the order of their (sorted) block names, so that in every contribution the k-th "
+    "block of the key owns the k-th group of lowest free indices: the round trip is decided per key over ALL terms of the "
+    "expression with the canonical tensor blocks of the key (key prefix 'block order'). The expression is expanded first "
+    "(unexpanded polynomial factors are part of the value domain), the input stays as it was, a tensor inside a polynomial "
+    "denominator is refused (key prefix 'unexpanded'). derivative: repeated and target indices on the differentiated "
+    "tensor get fresh indices and deltas before the minimisation; first-order-change identity also for f_ii, V^ij_ij, "
+    "V^ij_ik Z_jk, E_c = 1/2 f^b_c Z_b (key prefix 'lifted indices'). R14f: call history: "
     "derivative / remove_tensor evaluated on input B after input A on one path with shared module-level state "
     "(Symex.run_sequence; A, B differing in target indices, tensor name, spin, bra-ket symmetry, tensor class, exponent, "
     "provided target indices, ADC name) give for both calls exactly the results of the single calls. R08g: the index "
@@ -52,10 +59,12 @@ ASSUMPTIONS = [
     "indices have been replaced on the tensor; the sign clause is decided under the weaker contract 'some renaming by "
     "transpositions onto low non-target names' (scenario 'unsorted groups')",
     "bounded: the listed scenarios (tensors of rank <= 6, at most three occurrences, exponents <= 3)",
-    "the re-contraction (round trip) is decided term by term (one term, any number of occurrences: B x D'_1 x ... x D'_n = "
-    "kappa_1 ... kappa_n x term); for expressions of several terms the closed formula is compared; derivative with a "
-    "target index on the tensor: closed formula only",
-    "which of several occurrences is removed first is taken from the model's object order (canonical order of factors)",
+    "the re-contraction (round trip) is decided per block key over all terms of the expression that hold these blocks "
+    "(B_key x D'_1 x ... x D'_n = kappa_1 ... kappa_n x sum of these terms), provided all terms have the same target "
+    "indices; polynomial denominators only as far as the tensor is refused inside them (simplify on polynomials is not "
+    "modelled)",
+    "among occurrences in the same block the one removed first is taken from the model's object order (canonical order "
+    "of factors)",
 ]
 
 RM = "simplify:remove_tensor"
@@ -123,6 +132,11 @@ def _block(f):
     space = "".join(talg.space_of(s[0])[0] for s in idx)
     spin = "".join(s[1] if s[1] else "n" for s in idx)
     return space, spin
+
+
+def _block_name(f):
+    space, spin = _block(f)
+    return space if all(ch == "n" for ch in spin) else f"{space}_{spin}"
 
 
 def _group(dp):
@@ -241,9 +255,15 @@ def ref_process(term, ptarget, t_name, adc, mode, trace=None):
     if term.is_zero():
         return {("none",): (term, ptarget)}
     (m, c), = term.t.items()
+    for f, e in m:
+        if f[0] == "P" and any(talg.factor_name(t) == t_name for t in Poly.factor(f).tensors_inside()):
+            raise Expected("NotImplementedError")      # the tensor inside a polynomial that cannot be expanded
     occ = [(f, e) for f, e in m if talg.factor_name(f) == t_name]
     if not occ:
         return {("none",): (term, ptarget)}
+    # the blocks of the key are sorted: the occurrences are removed in that order, so that the i-th block of the key
+    # owns the i-th group of indices of the block expression in every contribution
+    occ.sort(key=lambda fe: _block_name(fe[0]))
     rest = Poly({tuple(x for x in m if talg.factor_name(x[0]) != t_name): c})
     targets = _targets(m, ptarget)
     for f, e in occ[1:]:
@@ -260,8 +280,7 @@ def ref_process(term, ptarget, t_name, adc, mode, trace=None):
         raise Expected(rm.error)
     if trace is not None:
         trace.append((term, rest, D, rm))
-    space, spin = _block(D)
-    block = space if all(ch == "n" for ch in spin) else f"{space}_{spin}"
+    block = _block_name(D)
     if len(occ) == 1 and e == 1:
         return {(block,): (rm.value, rm.ptarget)}
     out = {}
@@ -272,6 +291,7 @@ def ref_process(term, ptarget, t_name, adc, mode, trace=None):
 
 
 def ref_remove_tensor(expr, ptarget, t_name, adc, mode, trace=None):
+    expr = expr.expand()            # a tensor inside a polynomial factor is found as well
     out = {}
     for t in (expr.terms() or [Poly()]):
         for key, (contrib, pt) in ref_process(t, ptarget, t_name, adc, mode, trace).items():
@@ -279,8 +299,35 @@ def ref_remove_tensor(expr, ptarget, t_name, adc, mode, trace=None):
     return out
 
 
+def _lift(f, m, targets):
+    """Target indices and all but the first occurrence of a repeated index on the tensor f get fresh indices (lowest
+    unused names of the same space and spin, position by position): (sign, tensor on the new indices, [(old, new)])."""
+    I = list(talg.factor_idx(f))
+    used = {}
+    for s_, _ in talg.idx_counter(m):
+        used.setdefault(_sas(s_), set()).add(s_[0])
+    for key, names in targets.items():
+        used.setdefault(key, set()).update(names)
+    deltas, seen = [], set()
+    for pos, s_ in enumerate(I):
+        key = _sas(s_)
+        if s_[0] not in targets.get(key, ()) and s_ not in seen:
+            seen.add(s_)
+            continue
+        name = talg.lowest_avail(1, used[key], key[0])[0]
+        used[key].add(name)
+        ns = ix(name, s_[1])
+        deltas.append((s_, ns))
+        I[pos] = ns
+    if not deltas:
+        return 1, f, deltas
+    sgn, f1 = _on_indices(f, I)
+    return sgn, f1, deltas
+
+
 def ref_derivative(expr, ptarget, t_name, trace=None):
     out = {}
+    expr = expr.expand()
     for term in expr.terms():
         (m, c), = term.t.items()
         occ = [(f, e) for f, e in m if talg.factor_name(f) == t_name]
@@ -291,12 +338,21 @@ def ref_derivative(expr, ptarget, t_name, trace=None):
             for j, (g, eg) in enumerate(occ):
                 if j != k:
                     R = R * Poly.factor(g, eg)
-            I2, perms = talg.minimize(talg.factor_idx(f), targets)
+            # the derivative is taken with respect to an arbitrary element of the block: target and repeated indices on
+            # the tensor are replaced by fresh indices and tied to the old ones by deltas (f_ii -> delta_ij f_ij)
+            s1, f1, deltas = _lift(f, m, targets)
+            if not s1:
+                raise Expected("ModelLimit")
+            for old_s, new_s in deltas:
+                v, df = talg.mk_delta(old_s, new_s)
+                R = R * (Poly.num(v) if df is None else Poly.factor(df))
+            I2, perms = talg.minimize(talg.factor_idx(f1), targets)
             R = R.permute(perms)
             if R.is_zero():
                 raise Expected("RuntimeError")
-            d = Poly.factor(f).permute(perms)
+            d = Poly.factor(f1).permute(perms)
             (dm, s), = d.t.items()
+            s = s * s1
             f2 = dm[0][0]
             # dE/dD = e D^(e-1) R transforms like D^e: the characters are those of the power
             grp = _group(Poly.factor(f2, e))
@@ -316,8 +372,11 @@ def ref_derivative(expr, ptarget, t_name, trace=None):
 # scenarios
 
 class Sc:
-    def __init__(self, sid, rule, what, expr, t, target=None, adc=("X", "Y"), mode="lowest", args=None, roundtrip=True):
+    def __init__(self, sid, rule, what, expr, t, target=None, adc=("X", "Y"), mode="lowest", args=None, roundtrip=True,
+                 tag=None):
         self.id, self.rule, self.what, self.expr, self.t = sid, rule, what, expr, t
+        # tag: scenarios of one defect class - all their violations are reported under one rule with the tag as key prefix
+        self.tag = tag
         self.target = None if target is None else tuple(sorted(_idx(*target) if isinstance(target, tuple) else _idx(target),
                                                                 key=talg.ix_key))
         self.adc, self.mode, self.args, self.roundtrip = adc, mode, args, roundtrip
@@ -388,11 +447,34 @@ def remove_scenarios():
     # R14e: occurrences, terms, keys, guards
     a(Sc("two symmetric", "R14e", "f_ij f_jk z_ki with bra-ket symmetric f", A("f", "i", "j", 1) * A("f", "j", "k", 1) * N("z", "ki"), "f"))
     a(Sc("two antisym", "R14e", "V^ij_ab V^kl_ab w_ijkl", A("V", "ij", "ab") * A("V", "kl", "ab") * N("w", "ijkl"), "V"))
-    a(Sc("two blocks", "R14e", "d_kc d_lm x_kclm: blocks of different spaces", A("d", "k", "c") * A("d", "l", "m") * N("x", "kclm"), "d"))
+    a(Sc("two blocks", "R14e", "d_kc d_lm x_kclm: blocks of different spaces", A("d", "k", "c") * A("d", "l", "m") * N("x", "kclm"), "d", tag="block order"))
     a(Sc("three", "R14e", "three occurrences", N("z", "k") * N("z", "l") * N("z", "m") * N("x", "klm"), "z"))
     a(Sc("terms", "R14e", "several terms: same block twice, another block, a term without the tensor",
          A("d", "k", "c") * N("x", "kc") + num(2) * A("d", "l", "e") * N("y", "le") + A("d", "k", "l") * N("u", "kl")
          + num(7) * N("q", "mn") * N("p", "mn"), "d"))
+    # occurrences in different blocks: the i-th block of the (sorted) key owns the i-th index group in every contribution
+    a(Sc("block order terms", "R14e", "f_ij f_ka Z_ijka + f_ia f_jk U_iajk: the blocks occur in different orders",
+         A("f", "i", "j") * A("f", "k", "a") * N("Z", "ijka") + A("f", "i", "a") * A("f", "j", "k") * N("U", "iajk"), "f", tag="block order"))
+    a(Sc("block order recursion", "R14e", "f^j_a (f^j_k)^2 Z_ka with a bra-ket symmetric f",
+         A("f", "j", "a", 1) * A("f", "j", "k", 1) ** 2 * N("Z", "ka"), "f", tag="block order"))
+    a(Sc("block order three", "R14e", "d_kc d_lm d_ef x_kclmef + d_ef d_kl d_mc y_efklmc: three blocks",
+         A("d", "k", "c") * A("d", "l", "m") * A("d", "e", "f") * N("x", "kclmef")
+         + A("d", "e", "f") * A("d", "k", "l") * A("d", "m", "c") * N("y", "efklmc"), "d", tag="block order"))
+    a(Sc("block order spin", "R14e", "spin blocks oo_ab and oo_ba in both orders",
+         A("d", "i", "j", 0, sp="ab") * A("d", "k", "l", 0, sp="ba") * N("x", "ijkl", "abba")
+         + A("d", "k", "l", 0, sp="ba") * A("d", "i", "j", 0, sp="ab") * N("y", "klij", "baab") * num(2), "d", tag="block order"))
+    # unexpanded polynomial factors
+    a(Sc("polynomial factor", "R14e", "(f_ij + 2 f_ji) Z_ij: the tensor inside a polynomial factor",
+         Poly.unexpanded(A("f", "i", "j") + num(2) * A("f", "j", "i")) * N("Z", "ij"), "f", tag="unexpanded"))
+    a(Sc("polynomial remainder", "R14e", "f_ia (Z_ia + U_ia): a polynomial factor in the remainder",
+         A("f", "i", "a") * Poly.unexpanded(N("Z", "ia") + N("U", "ia")), "f", tag="unexpanded"))
+    a(Sc("polynomial product", "R14e", "(f_ia + g_ia)(Z_ia + f_ia)", Poly.unexpanded(A("f", "i", "a") + A("g", "i", "a"))
+         * Poly.unexpanded(N("Z", "ia") + A("f", "i", "a")), "f", tag="unexpanded"))
+    a(Sc("polynomial power", "R14e", "3 (f_ia + Z_ia)^2", num(3) * Poly.unexpanded(A("f", "i", "a") + N("Z", "ia"), 2), "f", tag="unexpanded"))
+    a(Sc("polynomial sum", "R14e", "f_ia Z_ia + (f_ij + Z_ij) U_ij: only one term holds a polynomial",
+         A("f", "i", "a") * N("Z", "ia") + Poly.unexpanded(A("f", "i", "j") + N("Z", "ij")) * N("U", "ij"), "f", tag="unexpanded"))
+    a(Sc("polynomial denominator", "R14e", "Z_ij / (f_ij + 2 f_ji): the tensor in a polynomial denominator is refused",
+         N("Z", "ij") * Poly.unexpanded(A("f", "i", "j") + num(2) * A("f", "j", "i"), -1), "f", roundtrip=False, tag="unexpanded"))
     a(Sc("none only", "R14e", "no term contains the tensor", N("q", "mn") * N("p", "mn") + num(2) * N("q", "ia"), "d"))
     a(Sc("spin key", "R14e", "spin block in the key", A("d", "k", "c", 0, sp="ab") * N("x", "kc", "ab"), "d"))
     a(Sc("zero", "R14e", "the zero expression", Poly(), "d"))
@@ -435,7 +517,21 @@ def derivative_scenarios():
          A("d", "k", "c") * N("x", "kc") + num(2) * A("d", "l", "e") * N("y", "le") + A("d", "k", "l") * N("u", "kl")
          + num(7) * N("q", "mn") * N("p", "mn"), "d"))
     a(Sc("none", "R14e", "no occurrence: empty result", N("q", "mn") * N("p", "mn"), "d"))
-    a(Sc("target sign", "R14e", "a target index on the tensor forces a sign", A("d", "jk", "ab") * N("x", "kab"), "d", roundtrip=False))
+    a(Sc("target sign", "R14e", "a target index on the tensor", A("d", "jk", "ab") * N("x", "kab"), "d", tag="lifted indices"))
+    # repeated and target indices on the differentiated tensor: the derivative is taken w.r.t. an arbitrary element of the
+    # block, the indices are tied to the old ones by deltas
+    a(Sc("trace", "R14c", "sum_i f_ii", A("f", "i", "i"), "f", tag="lifted indices"))
+    a(Sc("hf energy f", "R14c", "f_ii - 1/2 V^ij_ij w.r.t. f", A("f", "i", "i") - num(Fraction(1, 2)) * A("V", "ij", "ij"), "f", tag="lifted indices"))
+    a(Sc("hf energy V", "R14c", "f_ii - 1/2 V^ij_ij w.r.t. V", A("f", "i", "i") - num(Fraction(1, 2)) * A("V", "ij", "ij"), "V", tag="lifted indices"))
+    a(Sc("partial trace", "R14c", "V^ij_ik Z_jk", A("V", "ij", "ik") * N("Z", "jk"), "V", tag="lifted indices"))
+    a(Sc("target bra-ket", "R14c", "E_c = 1/2 f^b_c Z_b with a bra-ket symmetric f", num(Fraction(1, 2)) * A("f", "b", "c", 1) * N("Z", "b"), "f", tag="lifted indices"))
+    a(Sc("target both", "R14c", "f_ia w with both tensor indices as target indices", A("f", "i", "a") * N("w", "k") * N("u", "k"), "f", tag="lifted indices"))
+    a(Sc("repeated nonsym", "R14c", "z_kkkl w_l", N("z", "kkkl") * N("w", "l"), "z", tag="lifted indices"))
+    a(Sc("trace square", "R14c", "(f_ii)^2 w_i", A("f", "i", "i") ** 2 * N("w", "i"), "f", tag="lifted indices"))
+    a(Sc("trace spin", "R14c", "spin-labelled f_ii", A("f", "i", "i", 0, sp="aa") * num(2), "f", tag="lifted indices"))
+    a(Sc("target provided", "R14c", "explicit target indices on the tensor", A("d", "i", "c") * N("x", "ca"), "d", target="ia", tag="lifted indices"))
+    a(Sc("trace amplitude", "R14c", "amplitude t^a_i next to the target i", A("t1", "a", "i", 0, AM) * N("x", "a"), "t1", tag="lifted indices"))
+    a(Sc("polynomial factor", "R14e", "(f_ij + 2 f_ji) Z_ij", Poly.unexpanded(A("f", "i", "j") + num(2) * A("f", "j", "i")) * N("Z", "ij"), "f"))
     a(Sc("target names", "R14e", "target names reserved", A("d", "k", "c") * N("x", "kcia"), "d"))
     a(Sc("spin key", "R14e", "spin block in the key", A("d", "k", "c", 0, sp="ab") * N("x", "kc", "ab"), "d"))
     a(Sc("provided targets", "R14e", "assumptions carried over", A("d", "k", "c") * N("x", "kcia"), "d", target="ia"))
@@ -471,6 +567,35 @@ def _evaluate(ctx, fnref, sc, make_args):
     if o.kind == "raise":
         return "raise", o.exc, w
     return "return", o.value, w
+
+
+def _canonical_blocks(key, protos, targets, is_adc):
+    """[(tensor block, kappa)] for the blocks of a key: the k-th block carries the k-th group of the lowest names of its
+    (space, spin) classes that are no target names; kappa = |G| h (h = 1/2 with bra-ket symmetry, 1/sqrt|G| for an ADC
+    amplitude): contracting the block expression with the block over all index values gives kappa times the term."""
+    used = {}
+    for s_ in targets:
+        used.setdefault(_sas(s_), set()).add(s_[0])
+    out = []
+    for name in key:
+        proto = protos[name]
+        I = []
+        for s_ in talg.factor_idx(proto):
+            u = used.setdefault(_sas(s_), set())
+            nm = talg.lowest_avail(1, u, _sas(s_)[0])[0]
+            u.add(nm)
+            I.append(ix(nm, s_[1]))
+        sgn, f = _on_indices(proto, I)
+        if sgn != 1:
+            return None
+        grp = _group(Poly.factor(f))
+        kappa = Poly.num(len(grp))
+        if f[0] == "A" and f[5] != 0:
+            kappa = kappa * Fraction(1, 2)
+        if is_adc:
+            kappa = kappa * Poly.sqrt(len(grp), -1)
+        out.append((f, kappa))
+    return out
 
 
 def _n_occurrences(term: Poly, t_name):
@@ -595,6 +720,7 @@ def _input_unchanged(ctx, fn, label, sc, rec, before):
 
 
 IMPLICIT = "implicit targets: "
+TAG_RULE = {"block order": "R14e", "lifted indices": "R14c", "unexpanded": "R14e"}
 
 
 def check_remove(ctx, scenarios=None, guards=True, label=""):
@@ -620,6 +746,8 @@ def check_remove(ctx, scenarios=None, guards=True, label=""):
         # reported under R14c with a common key prefix
         implicit = any(t[3].needs_explicit for t in trace)
         force, tag = ("R14c", IMPLICIT) if implicit else (None, "")
+        if sc.tag:
+            force, tag = TAG_RULE[sc.tag], sc.tag + ": "
         ctx = _forced(ctx0, force)
         same = _compare(ctx0, fn, "remove_tensor", sc, kind, val, want, False, force, tag)
         if kind == "return":
@@ -644,14 +772,11 @@ def check_remove(ctx, scenarios=None, guards=True, label=""):
                   f"remove_tensor on {sc.what} ({_show(sc.expr, 120)}): the tensor rebuilt on the minimised indices is "
                   f"{[talg.show_factor(f) if f else '0' for f in got_f]} (constructor calls {built}); the removed tensor on these "
                   f"indices is {[talg.show_factor(f) for f in want_f]}", key=f"remove_tensor {tag}{sc.id} rebuilt")
-        if not sc.roundtrip or len(sc.expr.t) != 1 or not trace:
+        if not sc.roundtrip or not trace or sc.mode != "lowest" or any(tmodel.kind(v) != "expr" for v in val.values()):
             continue
         blocks = [k for k in val if k != ("none",)]
-        if len(blocks) != 1 or tmodel.kind(val[blocks[0]]) != "expr":
-            continue
-        B = val[blocks[0]].attrs["val"]
-        term = trace[0][0]
-        if len(trace) == 1:
+        if len(trace) == 1 and len(blocks) == 1 and len(sc.expr.t) == 1:
+            B = val[blocks[0]].attrs["val"]
             # R14b (i): the block expression carries the symmetry of the tensor block
             rm = trace[0][3]
             bad = [(seq, chi) for seq, chi in rm.group if B.permute(seq) != B * chi]
@@ -660,37 +785,49 @@ def check_remove(ctx, scenarios=None, guards=True, label=""):
                       f"remove_tensor on {sc.what} ({_show(sc.expr, 120)}): the block expression {_show(B, 200)} is not "
                       f"{'anti' if bad and bad[0][1] < 0 else ''}symmetric under {bad[0][0] if bad else ''} although the removed tensor "
                       f"block {talg.show_factor(rm.tensor)} is", key=f"remove_tensor {tag}{sc.id} symmetry")
-        # R14b (ii): contracting the block expression with the removed tensor blocks gives kappa times the original term
-        n_occ = len(blocks[0])
-        levels = []
-        for k in range(n_occ):
-            cands = [t[3] for t in trace if _n_occurrences(t[0], sc.t) == n_occ - k]
-            tens, kap = {c.tensor for c in cands}, {c.kappa for c in cands}
-            if len(tens) != 1 or len(kap) != 1:
-                levels = None
-                break
-            levels.append((tens.pop(), kap.pop()))
-        if not levels:
+        # R14b (ii): for every key, the block expression contracted with the tensor blocks of the key - the k-th block of
+        # the (sorted) key on the k-th group of lowest non-target indices - gives kappa times the sum of the terms of the
+        # (expanded) expression that hold these blocks
+        E = sc.expr.expand()
+        groups, protos, tgs, usable = {}, {}, set(), True
+        for term in E.terms():
+            (m, c), = term.t.items()
+            occ = [(f, e) for f, e in m if talg.factor_name(f) == sc.t]
+            if not occ:
+                continue
+            key = tuple(sorted(_block_name(f) for f, e in occ for _ in range(e)))
+            groups[key] = groups.get(key, Poly()) + term
+            tgs.add(frozenset(sc.target if sc.target is not None else talg.einstein_target(m)))
+            for f, e in occ:
+                shape = (f[0], f[1], f[2], len(f[3]), len(f[4]), f[5]) if f[0] == "A" else (f[0], f[1], len(f[2]))
+                if protos.setdefault(_block_name(f), (shape, f))[0] != shape:
+                    usable = False
+        if not usable or len(tgs) != 1 or set(groups) != set(blocks):
             continue
-        (m, c), = term.t.items()
-        tg = sc.target if sc.target is not None else talg.einstein_target(m)
-        lhs, kappa = B, Poly.num(1)
-        for t, kp in levels:
-            lhs = lhs * Poly.factor(t)
-            kappa = kappa * kp
-        shown = " x ".join(talg.show_factor(t) for t, _ in levels)
-        try:
-            eq, ca, cb = talg.contraction_equal(lhs, term * kappa, tg)
-        except ModelError as e:
-            if e.name != "ModelLimit":
-                raise
-            ctx.note(f"remove_tensor [{sc.id}]: round trip beyond the renaming bound, closed formula only")
-            continue
-        ctx.check("R14b" if same else sc.rule, fn, eq,
-                  f"remove_tensor [{sc.what}]: B x {shown} = {_show(kappa, 40)} x the original term",
-                  f"remove_tensor on {sc.what} ({_show(sc.expr, 120)}): the block expression contracted with the tensor block(s) "
-                  f"{shown} gives {_show(ca, 200)}; {_show(kappa, 40)} times the original term is {_show(cb, 200)} "
-                  f"(contracted indices renamed canonically, deltas resolved)", key=f"remove_tensor {tag}{sc.id} round trip")
+        tg = set(next(iter(tgs)))
+        for key in sorted(groups):
+            canon = _canonical_blocks(key, {k: v[1] for k, v in protos.items()}, tg, sc.t in sc.adc)
+            if canon is None:
+                continue
+            lhs, kappa = val[key].attrs["val"], Poly.num(1)
+            for t, kp in canon:
+                lhs = lhs * Poly.factor(t)
+                kappa = kappa * kp
+            shown = " x ".join(talg.show_factor(t) for t, _ in canon)
+            try:
+                eq, ca, cb = talg.contraction_equal(lhs, groups[key] * kappa, tg)
+            except ModelError as e:
+                if e.name != "ModelLimit":
+                    raise
+                ctx.note(f"remove_tensor [{sc.id}] {key}: round trip beyond the renaming bound, closed formula only")
+                continue
+            ctx.check("R14b" if same else sc.rule, fn, eq,
+                      f"remove_tensor [{sc.what}] {key}: B x {shown} = {_show(kappa, 40)} x the terms of the expression with these blocks",
+                      f"remove_tensor on {sc.what} ({_show(sc.expr, 120)}): the block expression {key} contracted with the tensor "
+                      f"block(s) {shown} (the k-th block of the key on the k-th group of lowest free indices) gives {_show(ca, 200)}; "
+                      f"{_show(kappa, 40)} times the terms of the expression with these blocks is {_show(cb, 200)} (contracted "
+                      f"indices renamed canonically, deltas resolved)", key=f"remove_tensor {tag}{sc.id} {key} round trip")
+    ctx = ctx0
     ctx.floor("R14a", f"remove_tensor {label} scenarios evaluated".replace("  ", " "), n, 40)
     # input guards
     if guards and ctx.want("R14e"):
@@ -707,7 +844,9 @@ def check_remove(ctx, scenarios=None, guards=True, label=""):
 def check_derivative(ctx, scenarios=None, guards=True, label=""):
     fn = ctx.model.fn(DV)
     n = 0
+    ctx0 = ctx
     for sc in (derivative_scenarios() if scenarios is None else scenarios):
+        ctx = ctx0
         holder = {}
 
         def make(w, sc=sc, holder=holder):
@@ -720,7 +859,9 @@ def check_derivative(ctx, scenarios=None, guards=True, label=""):
         except Expected as e:
             want = e
         n += 1
-        same = _compare(ctx, fn, "derivative", sc, kind, val, want, True)
+        force, tag = (TAG_RULE[sc.tag], sc.tag + ": ") if sc.tag else (None, "")
+        ctx = _forced(ctx0, force)
+        same = _compare(ctx0, fn, "derivative", sc, kind, val, want, True, force, tag)
         if isinstance(want, Expected) or kind != "return" or not isinstance(val, dict) or not sc.roundtrip:
             continue
         if any(tmodel.kind(v) != "expr" for v in val.values()):
@@ -740,7 +881,7 @@ def check_derivative(ctx, scenarios=None, guards=True, label=""):
             lhs = lhs + val[key].attrs["val"] * Poly.factor(var(f2))
         rhs = Poly()
         tg = set()
-        for term in sc.expr.terms():
+        for term in sc.expr.expand().terms():
             (m, c), = term.t.items()
             tg |= set(sc.target if sc.target is not None else talg.einstein_target(m))
             for f, e in m:
@@ -754,7 +895,8 @@ def check_derivative(ctx, scenarios=None, guards=True, label=""):
         eq, ca, cb = talg.contraction_equal(lhs, rhs, tg)
         ctx.check("R14b" if same else sc.rule, fn, eq, f"derivative [{sc.what}]: sum over blocks of dE/dD x var(D) = first-order change of E",
                   f"derivative on {sc.what} ({_show(sc.expr, 120)}): contracting the block derivatives with a variation of the tensor "
-                  f"gives {_show(ca, 200)}; the first-order change of the expression is {_show(cb, 200)}", key=f"derivative {sc.id} variation")
+                  f"gives {_show(ca, 200)}; the first-order change of the expression is {_show(cb, 200)}", key=f"derivative {tag}{sc.id} variation")
+    ctx = ctx0
     ctx.floor("R14b", f"derivative {label} scenarios evaluated".replace("  ", " "), n, 18)
     if guards and ctx.want("R14e"):
         g = Sc("guards", "R14e", "input guards", A("d", "k", "c") * N("x", "kc"), "d")
